@@ -160,6 +160,9 @@ def generate(rng, cfg):
             a["items"] = _pairs(rng, val)
             a["other"] = rng.choice(["dict", "same"] + (["pairs"] if op == "ior" else []))
             a["adopt"] = rng.random() < 0.5
+            if op != "ior":
+                a["mutate"] = _pick_key(rng, model, False)   # the result is written to: it must be an object of its own
+                a["v"] = val + 99
         elif op == "fromkeys":
             a["keys"] = [p[0] for p in _pairs(rng, 0)]
             a["v"] = val
@@ -223,12 +226,16 @@ def _derived_model(model, step, mutated=False):
     if op == "or":
         m = OrderedDict(model)
         _m_update(m, effective(a["other"], a["items"]))
+        if mutated and "mutate" in a:
+            m[norm(a["mutate"])] = a["v"]
         return m
     if op == "ror":
         m = OrderedDict()
         _m_update(m, effective(a["other"], a["items"]))
         for k, v in model.items():
             m[k] = v
+        if mutated and "mutate" in a:
+            m[norm(a["mutate"])] = a["v"]
         return m
     if op == "fromkeys":
         m = OrderedDict()
@@ -394,12 +401,18 @@ def execute(run, res):
             if list(new.items()) != list(new_model.items()):
                 res.violate(f"C17/{op}/content", stepno,
                             f"got {list(new.items())!r} want {list(new_model.items())!r}")
-            if op == "copy":
-                # independence: mutating the copy must not reach the original
+            if op == "copy" or "mutate" in a:
+                # independence: writing to the copy / the merged map must not reach the original (or the operand)
+                if new is d:
+                    res.violate(f"C17/{op}/aliased", stepno, "the result is the original object itself")
+                    continue
+                operand = list(other.items()) if op in ("or", "ror") else None
                 new[key_py(a["mutate"])] = a["v"]
                 new_model[norm(a["mutate"])] = a["v"]
                 if list(d.items()) != list(model.items()):
-                    res.violate("C17/copy/aliased", stepno, "mutating the copy changed the original")
+                    res.violate(f"C17/{op}/aliased", stepno, "writing to the result changed the original")
+                if operand is not None and list(other.items()) != operand:
+                    res.violate(f"C17/{op}/aliased-operand", stepno, "writing to the result changed the other operand")
             res.observe(stepno, op, describe([list(k) for k in new.items()]))
             if a.get("adopt"):
                 d, model = new, new_model
